@@ -53,6 +53,17 @@ func imageSpan(rec []byte) (int, int) {
 	return 117 + k + s, len(rec) - (117 + k + s)
 }
 
+// firstViews: the image view data records of the first item of a bundle (shared backing array: edits land in the file)
+func firstViews(b *icl.Bundle) []icl.ImageViewData {
+	if len(b.Checks) > 0 {
+		return b.Checks[0].ImageViewData
+	}
+	if len(b.Returns) > 0 {
+		return b.Returns[0].ImageViewData
+	}
+	return nil
+}
+
 func runC08(cfg *config) *Report {
 	rep := newReport("C08", cfg.tier, cfg.seed)
 	r := newRng(cfg.seed + 8000)
@@ -101,6 +112,18 @@ func runC08(cfg *config) *Report {
 			}
 		}
 		switch i % 4 {
+		case 0: // image bytes that are punctuation in ASCII and special in the EBCDIC code pages (underscore, brackets, caret)
+			for _, cl := range f.CashLetters {
+				for _, b := range cl.Bundles {
+					for _, its := range [][]icl.ImageViewData{firstViews(b)} {
+						for j := range its {
+							its[j].ImageData = append(append([]byte{}, its[j].ImageData...), []byte("_[^]_")...)
+							its[j].LengthImageData = fmt.Sprintf("%07d", len(its[j].ImageData))
+							note = "punctuation-image"
+						}
+					}
+				}
+			}
 		case 1: // image supplied as base64 text
 			for _, cl := range f.CashLetters {
 				for _, b := range cl.Bundles {
@@ -231,6 +254,26 @@ func runC08(cfg *config) *Report {
 			} else if d != ref {
 				rep.violate(Violation{Key: "C08:decode-differs:" + c.enc.String() + ":" + nlA.note, What: "the four renderings do not decode to the same file",
 					Replay: map[string]any{"tree": nlA.dump, "note": nlA.note, "enc": c.enc.String(), "reference": ref[:min(200, len(ref))], "this": d[:min(200, len(d))]}})
+			}
+		}
+		// (e) the same with the FRB compatibility mode switched on in the reading process (text files and files whose
+		// images hold punctuation bytes): the four renderings still decode to one file
+		if nlA.note == "text" || nlA.note == "punctuation-image" {
+			refOn := ""
+			for _, c := range []*rtCase{nlA, lpA, nlE, lpE} {
+				if strings.Contains(string(c.out), "\n") && !c.enc.LP && nlA.note != "text" {
+					continue
+				}
+				setFRB(true)
+				g, rerr, _ := realRead(c.out, c.enc, 1<<22)
+				setFRB(false)
+				d := canonErr(rerr) + " # " + exportedOnly(dumpFile(&g))
+				if refOn == "" {
+					refOn = d
+				} else if d != refOn {
+					rep.violate(Violation{Key: "C08:decode-differs-frb-mode:" + c.enc.String() + ":" + nlA.note, What: "with FRB_COMPATIBILITY_MODE=true the four renderings do not decode to the same file",
+						Replay: map[string]any{"tree": nlA.dump, "note": nlA.note, "enc": c.enc.String(), "reference": refOn[:min(200, len(refOn))], "this": d[:min(200, len(d))]}})
+				}
 			}
 		}
 	}
